@@ -17,7 +17,7 @@ import io
 import itertools
 
 PROP = 'C15'
-TARGETS = ['T15a', 'T15b', 'T15c', 'T15d']
+TARGETS = ['T15a', 'T15b', 'T15c', 'T15d', 'T15e']
 LEAN_MODULES = ['HdVerif.Props.C15']
 MODEL_MODULES = ['HdVerif.Model.SREvidence']
 NAMESPACE = 'HdVerif.C15'
